@@ -12,6 +12,11 @@ Rewrites (each preserves the value of every expression and the order of all side
   range0        range(a)        ->  range(0, a)
   idx-commute   a + b           ->  b + a              (only inside subscripts / slices / range(): integer arithmetic on pure operands)
   nop           a no-op statement `_unused = None` inserted after the docstring
+  swap-adjacent two adjacent pure assignments to different names that do not read each other are exchanged
+  drop-else-after-exit   if c: ...; return/raise/continue/break  else: B   ->   if c: ...exit ; B
+  split-or-guard         if a or b: exit        ->   if a: exit ; if b: exit
+  ifexp-to-if            t = A if c else B      ->   if c: t = A else: t = B
+  reword-error           the text of an error message is changed (type unchanged)
 usage: python -m tmverif.preserve <PID> --funcs mod.func,mod.func [--jobs 16] [--json out.json]
 """
 import ast, copy, json, os, shutil, subprocess, sys, tempfile
@@ -112,12 +117,75 @@ def rewrites_of(func):
             out.append(("hoist-store @%d `%s`" % (n.lineno, ast.unparse(n)[:50]), ("hoiststore", idx)))
         if isinstance(n, ast.Call) and isinstance(n.func, ast.Name) and n.func.id in ("range", "prange", "trange") and len(n.args) == 1 and not n.keywords:
             out.append(("range0 @%d `%s`" % (n.lineno, ast.unparse(n)[:50]), ("range0", idx)))
+    # statement-level rewrites
+    for p in ast.walk(func):
+        for f in ("body", "orelse", "finalbody"):
+            b = getattr(p, f, None)
+            if not isinstance(b, list):
+                continue
+            for i, s in enumerate(b):
+                key = (id(b), i)
+                if i + 1 < len(b) and _independent(s, b[i + 1]):
+                    out.append(("swap-adjacent @%d `%s` <-> `%s`" % (s.lineno, ast.unparse(s)[:30], ast.unparse(b[i + 1])[:30]), ("swapadj", _block_path(func, b), i)))
+                if isinstance(s, ast.If) and s.orelse and s.body and isinstance(s.body[-1], (ast.Return, ast.Raise, ast.Continue, ast.Break)) \
+                        and not (len(s.orelse) == 1 and isinstance(s.orelse[0], ast.If)):
+                    out.append(("drop-else-after-exit @%d `if %s`" % (s.lineno, ast.unparse(s.test)[:40]), ("dropelse", _block_path(func, b), i)))
+                if isinstance(s, ast.If) and not s.orelse and isinstance(s.test, ast.BoolOp) and isinstance(s.test.op, ast.Or) \
+                        and len(s.body) == 1 and isinstance(s.body[0], (ast.Raise, ast.Continue, ast.Break, ast.Return)) and \
+                        (not isinstance(s.body[0], ast.Return) or s.body[0].value is None or pure(s.body[0].value)):
+                    out.append(("split-or-guard @%d `if %s`" % (s.lineno, ast.unparse(s.test)[:40]), ("splitor", _block_path(func, b), i)))
+                if isinstance(s, ast.Assign) and len(s.targets) == 1 and isinstance(s.targets[0], ast.Name) and isinstance(s.value, ast.IfExp):
+                    out.append(("ifexp-to-if @%d `%s`" % (s.lineno, ast.unparse(s)[:50]), ("ifexp", _block_path(func, b), i)))
+                if isinstance(s, ast.Raise) and s.exc is not None and any(isinstance(x, ast.Constant) and isinstance(x.value, str) for x in ast.walk(s.exc)):
+                    out.append(("reword-error @%d" % s.lineno, ("reword", _block_path(func, b), i)))
     for k, x in enumerate(int_context_nodes(func)):
         out.append(("idx-commute @%d `%s`" % (x.lineno, ast.unparse(x)[:50]), ("commute", k)))
     for name in local_names(func):
         out.append(("rename local `%s` -> `%s_v`" % (name, name), ("rename", name)))
     out.append(("nop statement at the top", ("nop", 0)))
     return out
+
+
+def _block_path(func, block):
+    """stable address of a statement list: index in the walk order"""
+    k = 0
+    for p in ast.walk(func):
+        for f in ("body", "orelse", "finalbody"):
+            b = getattr(p, f, None)
+            if isinstance(b, list):
+                if b is block:
+                    return k
+                k += 1
+    return -1
+
+
+def _block_at(func, path):
+    k = 0
+    for p in ast.walk(func):
+        for f in ("body", "orelse", "finalbody"):
+            b = getattr(p, f, None)
+            if isinstance(b, list):
+                if k == path:
+                    return b
+                k += 1
+    return None
+
+
+def _names(e, ctx):
+    return {n.id for n in ast.walk(e) if isinstance(n, ast.Name) and isinstance(n.ctx, ctx)}
+
+
+def _independent(a, b):
+    """two adjacent plain assignments to different names, both pure, neither reads what the other writes"""
+    for s in (a, b):
+        if not (isinstance(s, ast.Assign) and len(s.targets) == 1 and isinstance(s.targets[0], ast.Name) and pure(s.value)):
+            return False
+        if any(isinstance(n, (ast.Subscript, ast.Attribute, ast.Call)) for n in ast.walk(s.value)):
+            return False
+    ta, tb = a.targets[0].id, b.targets[0].id
+    if ta == tb:
+        return False
+    return ta not in _names(b.value, ast.Load) and tb not in _names(a.value, ast.Load)
 
 
 def _containing_block(root, stmt):
@@ -163,6 +231,30 @@ def apply(func, spec):
         for x in ast.walk(func):
             if isinstance(x, ast.Name) and x.id == old:
                 x.id = old + "_v"
+    elif kind in ("swapadj", "dropelse", "splitor", "ifexp", "reword"):
+        b = _block_at(func, spec[1])
+        i = spec[2]
+        st = b[i]
+        if kind == "swapadj":
+            b[i], b[i + 1] = b[i + 1], b[i]
+        elif kind == "dropelse":
+            rest = st.orelse
+            st.orelse = []
+            b[i + 1:i + 1] = rest
+        elif kind == "splitor":
+            new = [ast.copy_location(ast.If(test=v, body=[copy.deepcopy(st.body[0])], orelse=[]), st) for v in st.test.values]
+            b[i:i + 1] = new
+        elif kind == "ifexp":
+            tgt = st.targets[0]
+            new = ast.copy_location(ast.If(test=st.value.test,
+                                           body=[ast.Assign(targets=[copy.deepcopy(tgt)], value=st.value.body, lineno=st.lineno)],
+                                           orelse=[ast.Assign(targets=[copy.deepcopy(tgt)], value=st.value.orelse, lineno=st.lineno)]), st)
+            b[i] = new
+        elif kind == "reword":
+            for x in ast.walk(st.exc):
+                if isinstance(x, ast.Constant) and isinstance(x.value, str):
+                    x.value = x.value + " (see the documentation)"
+                    break
     elif kind == "nop":
         k = 1 if (func.body and isinstance(func.body[0], ast.Expr) and isinstance(func.body[0].value, ast.Constant)) else 0
         func.body.insert(k, ast.Assign(targets=[ast.Name(id="_unused", ctx=ast.Store())], value=ast.Constant(value=None), lineno=func.lineno))
